@@ -4,12 +4,21 @@
 // pre-issuer and key identifiers), through BuildPrecertTBS / RemoveCTPoison / RemoveSCTList /
 // MerkleTreeLeafFromChain / MerkleTreeLeafForEmbeddedSCT / ctutil.VerifySCT, and SCT lists
 // through ASN1MarshalSCTs / certificate parsing / ParseSCTsFromSCTList.
+//
+// Three streams: random pairs (one with forcedEKU == nil), the class "EKU lists of the
+// pre-issuer" (ekuClasses) and the class "length boundaries of the re-encoded elements"
+// (boundaries).  References of the direct oracles are independent of the code under test: the same
+// certificate issued without the poison / SCT list (harness/pki re-assembles serial, validity and
+// every length field by hand), hand-encoded SCT lists and Merkle tree leaves (der.go), issuer key
+// hashes over the standard library's SubjectPublicKeyInfo.
 package main
 
 import (
 	"bytes"
+	"crypto"
 	"crypto/ecdsa"
 	"crypto/sha256"
+	stdx509 "crypto/x509"
 	"flag"
 	"fmt"
 	"math/big"
@@ -69,7 +78,9 @@ func insertAt(l []pkix.Extension, i int, e pkix.Extension) []pkix.Extension {
 	return append(out, l[i:]...)
 }
 
-func preissuerCoq(pi *x509.Certificate) string {
+// preissuerCoq renders what BuildPrecertTBS reads of the pre-issuer; ctEKU is what the harness put
+// into the certificate (not what the repository's parser made of it).
+func preissuerCoq(pi *x509.Certificate, ctEKU bool) string {
 	// RawIssuer as a TLV: tag byte + content
 	var rv asn1.RawValue
 	if _, err := asn1.Unmarshal(pi.RawIssuer, &rv); err != nil {
@@ -82,330 +93,805 @@ func preissuerCoq(pi *x509.Certificate) string {
 			break
 		}
 	}
-	ctEKU := false
-	for _, u := range pi.ExtKeyUsage {
-		if u == x509.ExtKeyUsageCertificateTransparency {
-			ctEKU = true
-		}
-	}
 	return fmt.Sprintf("(Some {| pi_issuer := (n2b %d, %s); pi_aki := %s; pi_ct_eku := %s |})", pi.RawIssuer[0], lib.Bytes(rv.Bytes), aki, lib.Bool(ctEKU))
+}
+
+var keyKinds = []string{"p256", "p256", "p384", "rsa2048", "ed25519"}
+
+type env struct {
+	r      *mrand.Rand
+	w      *lib.Writer
+	logKey crypto.Signer
+	logPub crypto.PublicKey
+	missed int // boundary targets that no filler size reaches
 }
 
 func main() {
 	flag.Parse()
-	r := lib.Rand()
-	w := lib.NewWriter(header, 60)
-	defer w.Guard()
+	e := &env{r: lib.Rand(), w: lib.NewWriter(header, 90), logKey: pki.Key("p256", 9)}
+	defer e.w.Guard()
+	e.logPub = e.logKey.Public()
 	n := lib.Count(120, 2500)
+	// The two focused classes come first (so that the first failing case of a run is one of their
+	// sharply described inputs when a defect concerns them) and draw from a generator of their own,
+	// derived from the seed, which leaves the random pairs of a seed what they are.
+	r := e.r
+	e.r = mrand.New(mrand.NewSource(lib.Seed()*7919 + 3))
+	i := n
+	// class "length boundaries of the re-encoded elements"
+	for _, b := range boundaries() {
+		e.guarded(i, func() { e.boundary(i, b) })
+		i++
+	}
+	// class "EKU lists of the pre-issuer": every list, with otherwise random certificate content
+	for rep := lib.Count(1, 6); rep > 0; rep-- {
+		for _, l := range ekuClasses() {
+			e.guarded(i, func() { e.one(i, l) })
+			i++
+		}
+	}
+	e.r = r
+	for i = 0; i < n; i++ {
+		e.guarded(i, func() { e.one(i, nil) })
+	}
+	e.w.Close()
+	fmt.Printf("c03: wrote %d cases (%d boundary targets unreachable)\n", e.w.Len(), e.missed)
+}
 
-	logKey := pki.Key("p256", 9)
-	logPub := logKey.Public()
-	keyKinds := []string{"p256", "p256", "p384", "rsa2048", "ed25519"}
+// guarded runs one pair; a panic of the harness inside it (an issuing or signing step that "cannot
+// fail" failing on a changed tree) becomes a recorded failing case and the run goes on with the next pair.
+func (e *env) guarded(i int, f func()) {
+	defer func() {
+		if p := recover(); p != nil {
+			e.w.Add(lib.Case{Key: fmt.Sprintf("abort-%d", i), Input: map[string]interface{}{"op": "pair-aborted", "pair": i, "issuer": issuerName(i%2 == 1)},
+				Impl:   map[string]interface{}{"panic": fmt.Sprint(p)},
+				PropOK: false, Note: "pair aborted: a step that succeeds on every tree where the property holds failed: " + fmt.Sprint(p), Tags: []string{"pair-aborted"}})
+		}
+	}()
+	f()
+}
 
-	for i := 0; i < n; i++ {
-		bare := r.Intn(3) == 0 // certificates whose only extensions are the extra ones
-		caWithSKI := r.Intn(4) != 0 && !bare
-		var caSKI []byte
-		if caWithSKI {
-			caSKI = make([]byte, 20)
-			r.Read(caSKI)
+func issuerName(std bool) string {
+	if std {
+		return "crypto/x509"
+	}
+	return "fork"
+}
+
+// ---- the class "EKU lists of the pre-issuer" ----
+
+var ekuOIDs = map[string][]int{
+	"ct":              {1, 3, 6, 1, 4, 1, 11129, 2, 4, 4},
+	"serverAuth":      {1, 3, 6, 1, 5, 5, 7, 3, 1},
+	"clientAuth":      {1, 3, 6, 1, 5, 5, 7, 3, 2},
+	"codeSigning":     {1, 3, 6, 1, 5, 5, 7, 3, 3},
+	"emailProtection": {1, 3, 6, 1, 5, 5, 7, 3, 4},
+	"ocspSigning":     {1, 3, 6, 1, 5, 5, 7, 3, 9},
+	"any":             {2, 5, 29, 37, 0},
+	"unknown":         {1, 3, 6, 1, 4, 1, 55555, 7, 1},    // not a usage the x509 package knows
+	"nearCT":          {1, 3, 6, 1, 4, 1, 11129, 2, 4, 5}, // the CT arc, last component off by one
+}
+
+var ekuKnown = map[string]x509.ExtKeyUsage{
+	"ct": x509.ExtKeyUsageCertificateTransparency, "serverAuth": x509.ExtKeyUsageServerAuth, "clientAuth": x509.ExtKeyUsageClientAuth,
+	"codeSigning": x509.ExtKeyUsageCodeSigning, "emailProtection": x509.ExtKeyUsageEmailProtection, "ocspSigning": x509.ExtKeyUsageOCSPSigning,
+	"any": x509.ExtKeyUsageAny,
+}
+
+// ekuClasses lists the extended key usage lists a certificate in the pre-issuer position can carry:
+// CT alone, CT with one or two other recognised usages in every order, CT with a usage the library
+// does not know, and lists without CT (an ordinary intermediate, which is then the direct issuer).
+func ekuClasses() [][]string {
+	out := [][]string{{"ct"}}
+	for _, o := range []string{"serverAuth", "clientAuth", "any", "codeSigning", "ocspSigning"} {
+		out = append(out, []string{"ct", o}, []string{o, "ct"})
+	}
+	for _, p := range [][2]string{{"serverAuth", "clientAuth"}, {"any", "emailProtection"}} {
+		a, b := p[0], p[1]
+		out = append(out, []string{"ct", a, b}, []string{"ct", b, a}, []string{a, "ct", b}, []string{b, "ct", a}, []string{a, b, "ct"}, []string{b, a, "ct"})
+	}
+	out = append(out, []string{"ct", "unknown"}, []string{"unknown", "ct"}, []string{"unknown", "ct", "serverAuth"}, []string{"serverAuth", "unknown", "ct"})
+	out = append(out, []string{}, []string{"serverAuth"}, []string{"serverAuth", "clientAuth"}, []string{"unknown"}, []string{"nearCT"}, []string{"any"})
+	return out
+}
+
+// ekuOpts puts the list into the certificate options: through the template when the library can
+// express it (half of the time), otherwise as a hand-encoded extKeyUsage extension.
+func ekuOpts(r *mrand.Rand, names []string, o *pki.Opts) (hasCT bool) {
+	expressible := true
+	var content []byte
+	var known []x509.ExtKeyUsage
+	for _, n := range names {
+		if n == "ct" {
+			hasCT = true
 		}
-		caAKIself := r.Intn(2) == 0
-		// sometimes the issuing CA is itself issued by a root, so that submitted chains continue past it
-		var root *pki.Entity
-		if r.Intn(2) == 0 {
-			root = pki.Issue(pki.Opts{CN: fmt.Sprintf("Root %d", i), IsCA: true, KeyKind: keyKinds[r.Intn(4)], KeyIdx: 7 + r.Intn(2)}, nil)
+		if u, ok := ekuKnown[n]; ok {
+			known = append(known, u)
+		} else {
+			expressible = false
 		}
-		ca := pki.Issue(pki.Opts{CN: fmt.Sprintf("CA %d", i), IsCA: true, KeyKind: keyKinds[r.Intn(2)], KeyIdx: r.Intn(3), SKI: caSKI,
-			Mutate: func(t *x509.Certificate) {
-				if caAKIself && caSKI != nil && root == nil {
-					t.AuthorityKeyId = caSKI
-				}
-			}}, root)
-		usePre := r.Intn(2) == 0
-		var preIss *pki.Entity
-		if usePre {
-			var piSKI []byte
-			if r.Intn(3) != 0 && !bare {
-				piSKI = make([]byte, 20)
-				r.Read(piSKI)
-			}
-			ekus := []x509.ExtKeyUsage{x509.ExtKeyUsageCertificateTransparency}
-			if r.Intn(12) == 0 {
-				ekus = []x509.ExtKeyUsage{x509.ExtKeyUsageServerAuth} // not a real pre-issuer
-			}
-			// the pre-issuer's own authority key id, in the three forms RFC 5280 allows; custom forms are
-			// only possible when the CA has no subject key id (CreateCertificate would add its own)
-			var piExtra []pkix.Extension
-			if caSKI == nil && piSKI == nil && r.Intn(2) == 0 {
-				piExtra = []pkix.Extension{{Id: x509.OIDExtensionAuthorityKeyId, Value: akiValue(r, ca.Cert)}}
-			}
-			preIss = pki.Issue(pki.Opts{CN: fmt.Sprintf("Pre-issuer %d", i), IsCA: true, KeyKind: "p256", KeyIdx: 3 + r.Intn(3), SKI: piSKI, EKUs: ekus, ExtraExt: piExtra}, ca)
+		content = append(content, derOID(ekuOIDs[n])...)
+	}
+	if len(names) == 0 {
+		return false
+	}
+	if expressible && r.Intn(2) == 0 {
+		o.EKUs = known
+		return
+	}
+	o.ExtraExt = append(o.ExtraExt, pkix.Extension{Id: x509.OIDExtensionExtendedKeyUsage, Value: tlv(0x30, content)})
+	return
+}
+
+// ---- certificate content shared by a precertificate, its reference and its final certificate ----
+
+type content struct {
+	i        int
+	std      bool // issued by the standard library (see issue.go)
+	bare     bool
+	serial   *big.Int
+	nb, na   time.Time
+	leafKind string
+	leafSKI  []byte
+}
+
+func (c content) issue(extra []pkix.Extension, parent *pki.Entity, noAKI bool) *pki.Entity {
+	o := pki.Opts{CN: fmt.Sprintf("leaf-%d.example", c.i), KeyKind: c.leafKind, KeyIdx: 6, Serial: c.serial,
+		NotBefore: c.nb, NotAfter: c.na, ExtraExt: extra, SKI: c.leafSKI, DNSNames: []string{fmt.Sprintf("leaf-%d.example", c.i)},
+		EKUs: []x509.ExtKeyUsage{x509.ExtKeyUsageServerAuth}}
+	if c.bare {
+		o.DNSNames, o.EKUs, o.NoBC = nil, nil, true
+	}
+	return issue(c.std, certOpts{Opts: o, NoKeyUsage: c.bare, NoAKI: noAKI}, parent)
+}
+
+func drawSerial(r *mrand.Rand) *big.Int {
+	b := make([]byte, 1+r.Intn(19))
+	r.Read(b)
+	switch r.Intn(4) { // the sign-octet boundary of the DER INTEGER: top octet below, at and above 0x80
+	case 0:
+		b[0] &= 0x7f
+		b[0] |= 1
+	case 1:
+		b[0] = 0x80
+	case 2:
+		b[0] = []byte{0x7f, 0x81, 0xff, 0x01}[r.Intn(4)]
+	default:
+		b[0] |= 1
+	}
+	return new(big.Int).SetBytes(b)
+}
+
+func drawValidity(r *mrand.Rand) (time.Time, time.Time) {
+	notBefore := time.Date(2015+r.Intn(20), time.Month(1+r.Intn(12)), 1+r.Intn(28), r.Intn(24), r.Intn(60), r.Intn(60), 0, time.UTC)
+	notAfter := notBefore.AddDate(r.Intn(3), r.Intn(12), 1)
+	if r.Intn(3) == 0 {
+		notAfter = time.Date(2049+r.Intn(4), 12, 31, 23, 59, 59, 0, time.UTC) // both sides of 2050
+	}
+	return notBefore, notAfter
+}
+
+// ---- the steps of a pair, each emitting its case(s) ----
+
+// build runs BuildPrecertTBS and emits the CBuild case.  ref, when given, is the TBSCertificate of the
+// same certificate issued without the poison extension.
+func (e *env) build(tbs []byte, preCert *x509.Certificate, preCoq string, expectOK bool, mut string, ref []byte, input map[string]interface{}, tags []string) (built []byte, coq string, ok bool) {
+	var berr error
+	pan := try(func() { built, berr = x509.BuildPrecertTBS(tbs, preCert) })
+	propOK, note := !pan, ""
+	if pan {
+		note = "BuildPrecertTBS panics"
+	}
+	if !pan && (berr == nil) != expectOK {
+		propOK, note = false, fmt.Sprintf("BuildPrecertTBS ok=%v for mutation %s", berr == nil, mut)
+	}
+	if propOK && berr == nil && ref != nil && !bytes.Equal(built, ref) {
+		// independent reference: the same certificate content issued WITHOUT the poison extension
+		// (same issuer, serial, validity, key, other extensions in the same order) has, byte for byte,
+		// the TBSCertificate that de-poisoning must produce
+		propOK, note = false, "BuildPrecertTBS output differs from the TBSCertificate of the same certificate issued without the poison extension"
+	}
+	coq = fmt.Sprintf("CBuild %s %s (%s)", lib.Bytes(tbs), preCoq, obsBytes(built, berr, pan))
+	input["op"] = "build-precert-tbs"
+	e.w.Add(lib.Case{Coq: coq, Input: input, Impl: map[string]interface{}{"ok": berr == nil && !pan, "len": len(built)},
+		PropOK: propOK, Note: note, Tags: tags})
+	return built, coq, berr == nil && !pan
+}
+
+// logSCT lets "the log" build the precertificate entry from the submitted chain and sign it.  The entry
+// is compared with the hand-encoded leaf over wantTBS and the SHA-256 of the real issuer's
+// SubjectPublicKeyInfo (encoded by the standard library).  sigLen > 0 asks for a signature of exactly
+// that many octets (ECDSA signatures vary in length; the boundary class needs a fixed size).
+func (e *env) logSCT(i int, coq string, chain []*x509.Certificate, ts uint64, wantTBS []byte, issuerPub crypto.PublicKey, sigLen int, input map[string]interface{}) (*ct.MerkleTreeLeaf, *ct.SignedCertificateTimestamp, bool) {
+	var leaf *ct.MerkleTreeLeaf
+	var lerr error
+	pan := try(func() { leaf, lerr = ct.MerkleTreeLeafFromChain(chain, ct.PrecertLogEntryType, ts) })
+	spki, err := stdx509.MarshalPKIXPublicKey(issuerPub)
+	if err != nil {
+		panic(err)
+	}
+	want := handPrecertLeaf(ts, sha256.Sum256(spki), wantTBS)
+	propOK, note := true, ""
+	var got []byte
+	switch {
+	case pan:
+		propOK, note = false, "MerkleTreeLeafFromChain panics on a well-formed precertificate chain"
+	case lerr != nil:
+		propOK, note = false, "MerkleTreeLeafFromChain fails on a well-formed precertificate chain"
+	default:
+		te := leaf.TimestampedEntry
+		switch {
+		case te == nil || te.PrecertEntry == nil || te.EntryType != ct.PrecertLogEntryType || te.Timestamp != ts || leaf.Version != ct.V1 || leaf.LeafType != ct.TimestampedEntryLeafType || len(te.Extensions) != 0:
+			propOK, note = false, "MerkleTreeLeafFromChain: not a version 1 precertificate entry with the given timestamp"
+		case te.PrecertEntry.IssuerKeyHash != sha256.Sum256(spki):
+			propOK, note = false, "precertificate entry: issuer_key_hash is not the SHA-256 of the real issuer's SubjectPublicKeyInfo"
+		case !bytes.Equal(te.PrecertEntry.TBSCertificate, wantTBS):
+			propOK, note = false, "precertificate entry: TBSCertificate is not the de-poisoned (and, with a pre-issuer, re-issued) TBSCertificate"
 		}
-		// the certificate content
-		nExtra := r.Intn(4)
-		var others []pkix.Extension
-		for k := 0; k < nExtra; k++ {
-			others = append(others, randExt(r, k))
+		got, _ = tls.Marshal(*leaf)
+		if propOK && !bytes.Equal(got, want) {
+			propOK, note = false, "precertificate entry differs from the hand-encoded RFC 6962 MerkleTreeLeaf"
 		}
-		serial := new(big.Int).SetBytes(func() []byte { b := make([]byte, 1+r.Intn(19)); r.Read(b); b[0] &= 0x7f; b[0] |= 1; return b }())
-		notBefore := time.Date(2015+r.Intn(20), time.Month(1+r.Intn(12)), 1+r.Intn(28), r.Intn(24), r.Intn(60), r.Intn(60), 0, time.UTC)
-		notAfter := notBefore.AddDate(r.Intn(3), r.Intn(12), 1)
-		if r.Intn(3) == 0 {
-			notAfter = time.Date(2049+r.Intn(4), 12, 31, 23, 59, 59, 0, time.UTC) // both sides of 2050
-		}
-		leafKind := keyKinds[r.Intn(len(keyKinds))]
-		var leafSKI []byte
-		if r.Intn(2) == 0 && !bare {
-			leafSKI = make([]byte, 20)
-			r.Read(leafSKI)
-		}
-		mk := func(extra []pkix.Extension, parent *pki.Entity) *pki.Entity {
-			o := pki.Opts{CN: fmt.Sprintf("leaf-%d.example", i), KeyKind: leafKind, KeyIdx: 6, Serial: serial,
-				NotBefore: notBefore, NotAfter: notAfter, ExtraExt: extra, SKI: leafSKI, DNSNames: []string{fmt.Sprintf("leaf-%d.example", i)},
-				EKUs: []x509.ExtKeyUsage{x509.ExtKeyUsageServerAuth}}
-			if bare {
-				o.DNSNames, o.EKUs, o.NoBC = nil, nil, true
-				o.Mutate = func(t *x509.Certificate) { t.KeyUsage = 0 }
-			}
-			return pki.Issue(o, parent)
-		}
-		pi := r.Intn(len(others) + 1)
-		precertParent := ca
-		if usePre {
-			precertParent = preIss
-		}
-		precertExts := insertAt(others, pi, pki.PoisonExt())
-		mut := "none"
-		switch r.Intn(10) {
-		case 0:
-			precertExts = others
-			mut = "no-poison"
-		case 1:
-			at := r.Intn(len(precertExts) + 1)
-			if r.Intn(2) == 0 {
-				at = 0
-			}
-			precertExts = insertAt(precertExts, at, pki.PoisonExt())
-			mut = "poison-twice"
-		}
-		precert := mk(precertExts, precertParent)
-		var preCert *x509.Certificate
-		preCoq := "None"
-		if usePre {
-			preCert = preIss.Cert
-			preCoq = preissuerCoq(preCert)
-		}
-		tbs := precert.Cert.RawTBSCertificate
-		if r.Intn(15) == 0 {
-			tbs = append(append([]byte{}, tbs...), 0)
-			mut += "+trailing"
-		}
-		var built []byte
-		var berr error
-		pan := try(func() { built, berr = x509.BuildPrecertTBS(tbs, preCert) })
-		propOK, note := !pan, ""
-		if pan {
-			note = "BuildPrecertTBS panics"
-		}
-		expectOK := mut == "none" && (!usePre || isPreIssuer(preCert))
-		if !pan && (berr == nil) != expectOK {
-			propOK, note = false, fmt.Sprintf("BuildPrecertTBS ok=%v for mutation %s", berr == nil, mut)
-		}
-		if propOK && berr == nil && mut == "none" && !usePre {
-			// independent reference: the same certificate content issued WITHOUT the poison extension
-			// (same issuer, serial, validity, key, other extensions in the same order) has, byte for byte,
-			// the TBSCertificate that de-poisoning must produce
-			if plain := mk(others, ca); !bytes.Equal(built, plain.Cert.RawTBSCertificate) {
-				propOK, note = false, "BuildPrecertTBS output differs from the TBSCertificate of the same certificate issued without the poison extension"
-			}
-		}
-		w.Add(lib.Case{
-			Coq:    fmt.Sprintf("CBuild %s %s (%s)", lib.Bytes(tbs), preCoq, obsBytes(built, berr, pan)),
-			Input:  map[string]interface{}{"op": "build-precert-tbs", "bare": bare, "preissuer": usePre, "mutation": mut, "others": nExtra, "poison_at": pi, "leaf_key": leafKind},
-			Impl:   map[string]interface{}{"ok": berr == nil && !pan, "len": len(built)},
-			PropOK: propOK, Note: note, Tags: []string{"build:" + mut, fmt.Sprintf("preissuer=%v", usePre)},
-		})
-		if berr != nil || pan || mut != "none" {
-			continue
-		}
-		// the log signs the precertificate entry
-		chain := []*x509.Certificate{precert.Cert, ca.Cert}
-		if usePre {
-			chain = []*x509.Certificate{precert.Cert, preIss.Cert, ca.Cert}
-		}
-		if root != nil {
-			chain = append(chain, root.Cert)
-		}
-		ts := uint64(1500000000000 + r.Int63n(1e11))
-		leaf, lerr := ct.MerkleTreeLeafFromChain(chain, ct.PrecertLogEntryType, ts)
-		if lerr != nil {
-			panic(lerr)
-		}
-		sct := &ct.SignedCertificateTimestamp{SCTVersion: ct.V1, Timestamp: ts}
-		sct.LogID.KeyID = sha256.Sum256(mustSPKI(logPub))
-		input, ierr := ct.SerializeSCTSignatureInput(*sct, ct.LogEntry{Leaf: *leaf})
-		if ierr != nil {
-			panic(ierr)
-		}
-		ds, serr := tls.CreateSignature(*logKey.(*ecdsa.PrivateKey), tls.SHA256, input)
+	}
+	input["op"] = "precert-entry"
+	_ = coq // the entry is a direct-oracle case: its TBSCertificate is evaluated against the model in the CBuild case
+	e.w.Add(lib.Case{Key: fmt.Sprintf("leaf-%d", i), Input: input,
+		Impl:   map[string]interface{}{"ok": lerr == nil && !pan, "len": len(got), "want_len": len(want)},
+		PropOK: propOK, Note: note, Tags: []string{fmt.Sprintf("precert-entry:chain=%d", len(chain))}})
+	if pan || lerr != nil {
+		// the failure is recorded; go on with the entry a conforming log would have signed, so that the
+		// embedded-SCT route is still examined
+		leaf = &ct.MerkleTreeLeaf{Version: ct.V1, LeafType: ct.TimestampedEntryLeafType, TimestampedEntry: &ct.TimestampedEntry{
+			Timestamp: ts, EntryType: ct.PrecertLogEntryType, PrecertEntry: &ct.PreCert{IssuerKeyHash: sha256.Sum256(spki), TBSCertificate: wantTBS}}}
+	}
+	sct := &ct.SignedCertificateTimestamp{SCTVersion: ct.V1, Timestamp: ts}
+	sct.LogID.KeyID = sha256.Sum256(mustSPKI(e.logPub))
+	sigInput, ierr := ct.SerializeSCTSignatureInput(*sct, ct.LogEntry{Leaf: *leaf})
+	if ierr != nil {
+		panic(ierr)
+	}
+	for try := 0; ; try++ {
+		ds, serr := tls.CreateSignature(*e.logKey.(*ecdsa.PrivateKey), tls.SHA256, sigInput)
 		if serr != nil {
 			panic(serr)
 		}
 		sct.Signature = ct.DigitallySigned(ds)
-		// a few more SCTs (other logs) for the embedded list
-		scts := []*ct.SignedCertificateTimestamp{sct}
-		for k := r.Intn(3); k > 0; k-- {
-			o := &ct.SignedCertificateTimestamp{SCTVersion: ct.V1, Timestamp: r.Uint64(), Extensions: make([]byte, r.Intn(4))}
-			r.Read(o.LogID.KeyID[:])
-			o.Signature = ct.DigitallySigned{Algorithm: tls.SignatureAndHashAlgorithm{Hash: tls.SHA256, Signature: tls.ECDSA}, Signature: make([]byte, 8+r.Intn(64))}
-			r.Read(o.Signature.Signature)
-			scts = append(scts, o)
+		if sigLen == 0 || len(ds.Signature) == sigLen || try > 200 {
+			break
 		}
-		r.Shuffle(len(scts), func(a, b int) { scts[a], scts[b] = scts[b], scts[a] })
-		var assigned []*submission.AssignedSCT
-		var sctVals []string
-		dS := tlsgen.FromGoType(reflect.TypeOf(*sct))
-		for _, x := range scts {
-			assigned = append(assigned, &submission.AssignedSCT{LogURL: "l", SCT: x})
-			sctVals = append(sctVals, tlsgen.ValCoq(dS, reflect.ValueOf(*x)))
-		}
-		extVal, aerr := submission.ASN1MarshalSCTs(assigned)
-		w.Add(lib.Case{
-			Coq:    fmt.Sprintf("CSctList %s (%s)", lib.List(sctVals), obsBytes(extVal, aerr, false)),
-			Input:  map[string]interface{}{"op": "asn1-marshal-scts", "count": len(scts)},
-			Impl:   map[string]interface{}{"ok": aerr == nil, "len": len(extVal)},
-			PropOK: aerr == nil, Note: "ASN1MarshalSCTs failed on well-formed SCTs", Tags: []string{fmt.Sprintf("sct-list:%d", len(scts))},
-		})
-		if aerr != nil {
-			continue
-		}
-		// the final certificate: same content, SCT list at another position, issued by the CA
-		// the corresponding final certificate carries, besides the SCT list, exactly the extensions
-		// of the de-poisoned precertificate in the same order.  When the precertificate has no
-		// authority key id but the pre-issuer has one, BuildPrecertTBS appends it at the END, so the
-		// final certificate must carry it last (CreateCertificate would otherwise put it first).
-		fothers := others
-		if usePre && len(precert.Cert.AuthorityKeyId) == 0 {
-			for _, e := range preIss.Cert.Extensions {
-				if e.Id.Equal(x509.OIDExtensionAuthorityKeyId) {
-					fothers = append(append([]pkix.Extension{}, others...), pkix.Extension{Id: e.Id, Value: e.Value})
-				}
-			}
-		}
-		others = fothers
-		sj := r.Intn(len(others) + 1)
-		finalExts := insertAt(others, sj, pkix.Extension{Id: x509.OIDExtensionCTSCT, Value: extVal})
-		fmut := "none"
-		switch r.Intn(10) {
-		case 0:
-			at := r.Intn(len(finalExts) + 1)
-			if r.Intn(2) == 0 {
-				at = 0
-			}
-			finalExts = insertAt(finalExts, at, pkix.Extension{Id: x509.OIDExtensionCTSCT, Value: extVal})
-			fmut = "sct-twice"
-		case 1:
-			if len(others) > 0 { // a different "other" extension: not the certificate the log signed
-				alt := append([]pkix.Extension{}, others...)
-				alt[0] = randExt(r, 77)
-				finalExts = insertAt(alt, sj, pkix.Extension{Id: x509.OIDExtensionCTSCT, Value: extVal})
-				fmut = "other-ext-changed"
-			}
-		case 2:
-			if len(others) > 1 {
-				alt := append([]pkix.Extension{}, others...)
-				alt[0], alt[1] = alt[1], alt[0]
-				finalExts = insertAt(alt, sj, pkix.Extension{Id: x509.OIDExtensionCTSCT, Value: extVal})
-				fmut = "others-reordered"
-			}
-		}
-		final := mk(finalExts, ca)
-		var rem []byte
-		var rerr error
-		rpan := try(func() { rem, rerr = x509.RemoveSCTList(final.Cert.RawTBSCertificate) })
-		propOK, note = !rpan, ""
-		// direct oracle: the two routes give byte-identical TBS exactly for the corresponding certificate
-		if !rpan && rerr == nil && fmut == "none" && !bytes.Equal(rem, built) {
-			propOK, note = false, "routes differ: RemoveSCTList(final) != BuildPrecertTBS(precert)"
-		}
-		if !rpan && rerr == nil && (fmut == "other-ext-changed" || fmut == "others-reordered") && bytes.Equal(rem, built) {
-			propOK, note = false, "routes agree although the certificates differ"
-		}
-		if (rerr == nil) != (fmut != "sct-twice") {
-			propOK, note = false, "RemoveSCTList ok="+fmt.Sprint(rerr == nil)+" for "+fmut
-		}
-		w.Add(lib.Case{
-			Coq:    fmt.Sprintf("CRemoveSct %s (%s)", lib.Bytes(final.Cert.RawTBSCertificate), obsBytes(rem, rerr, rpan)),
-			Input:  map[string]interface{}{"op": "remove-sct-list", "mutation": fmut, "sct_at": sj, "preissuer": usePre},
-			Impl:   map[string]interface{}{"ok": rerr == nil && !rpan, "same_as_precert_route": bytes.Equal(rem, built)},
-			PropOK: propOK, Note: note, Tags: []string{"remove-sct:" + fmut},
-		})
-		// the SCT list read back from the parsed final certificate
-		if fmut != "sct-twice" {
-			back, perr := x509util.ParseSCTsFromSCTList(&final.Cert.SCTList)
-			var backVals []string
-			same := perr == nil && len(back) == len(scts)
-			for k, x := range back {
-				backVals = append(backVals, tlsgen.ValCoq(dS, reflect.ValueOf(*x)))
-				if same && !reflect.DeepEqual(normSCT(*x), normSCT(*scts[k])) {
-					same = false
-				}
-			}
-			o := "ErrStruct"
-			if perr == nil {
-				o = "Ok " + lib.List(backVals)
-			}
-			w.Add(lib.Case{
-				Coq:    fmt.Sprintf("CSctParse %s (%s)", lib.Bytes(extVal), o),
-				Input:  map[string]interface{}{"op": "parse-sct-list", "count": len(scts)},
-				Impl:   map[string]interface{}{"ok": perr == nil, "count": len(back)},
-				PropOK: same, Note: "SCT list read back differs from the list embedded", Tags: []string{"sct-parse"},
-			})
-		}
-		// end to end: the embedded SCT verifies exactly when the log signed that precertificate
-		fchain := []*x509.Certificate{final.Cert, ca.Cert}
-		if root != nil {
-			fchain = append(fchain, root.Cert)
-		}
-		verr := ctutil.VerifySCT(logPub, fchain, sct, true)
-		eleaf, eerr := ct.MerkleTreeLeafForEmbeddedSCT(fchain, ts)
-		lb1, _ := tls.Marshal(*leaf)
-		var lb2 []byte
-		if eerr == nil {
-			lb2, _ = tls.Marshal(*eleaf)
-		}
-		e2eOK := true
-		switch fmut {
-		case "none":
-			e2eOK = verr == nil && eerr == nil && bytes.Equal(lb1, lb2)
-		case "other-ext-changed", "others-reordered":
-			e2eOK = verr != nil && !bytes.Equal(lb1, lb2)
-		}
-		perr2 := ctutil.VerifySCT(logPub, chain, sct, false)
-		if perr2 != nil {
-			e2eOK = false
-		}
-		w.Add(lib.Case{
-			Coq:    fmt.Sprintf("CRemoveSct %s (%s)", lib.Bytes(final.Cert.RawTBSCertificate), obsBytes(rem, rerr, rpan)),
-			Key:    fmt.Sprintf("e2e-%d", i),
-			Input:  map[string]interface{}{"op": "verify-embedded-sct", "mutation": fmut, "preissuer": usePre, "chain_len": len(chain)},
-			Impl:   map[string]interface{}{"embedded_verifies": verr == nil, "precert_sct_verifies": perr2 == nil, "leaves_equal": bytes.Equal(lb1, lb2)},
-			PropOK: e2eOK, Note: fmt.Sprintf("embedded SCT verification (%v) inconsistent with the log's signature for mutation %s", verr == nil, fmut),
-			Tags: []string{"e2e:" + fmut + fmt.Sprintf(":verifies=%v", verr == nil), fmt.Sprintf("e2e-chain:pre=%v:len=%d", usePre, len(chain))},
-		})
 	}
-	w.Close()
-	fmt.Printf("c03: wrote %d cases\n", w.Len())
+	return leaf, sct, true
 }
 
-func isPreIssuer(c *x509.Certificate) bool {
-	for _, u := range c.ExtKeyUsage {
-		if u == x509.ExtKeyUsageCertificateTransparency {
+func fakeSCT(r *mrand.Rand) *ct.SignedCertificateTimestamp {
+	o := &ct.SignedCertificateTimestamp{SCTVersion: ct.V1, Timestamp: r.Uint64(), Extensions: make([]byte, r.Intn(4))}
+	r.Read(o.LogID.KeyID[:])
+	o.Signature = ct.DigitallySigned{Algorithm: tls.SignatureAndHashAlgorithm{Hash: tls.SHA256, Signature: tls.ECDSA}, Signature: make([]byte, 8+r.Intn(64))}
+	r.Read(o.Signature.Signature)
+	return o
+}
+
+var sctDesc = tlsgen.FromGoType(reflect.TypeOf(ct.SignedCertificateTimestamp{}))
+
+// sctList runs ASN1MarshalSCTs and emits the CSctList case; the reference is the hand-encoded list.
+func (e *env) sctList(scts []*ct.SignedCertificateTimestamp) ([]byte, bool) {
+	var assigned []*submission.AssignedSCT
+	var sctVals []string
+	for _, x := range scts {
+		assigned = append(assigned, &submission.AssignedSCT{LogURL: "l", SCT: x})
+		sctVals = append(sctVals, tlsgen.ValCoq(sctDesc, reflect.ValueOf(*x)))
+	}
+	extVal, aerr := submission.ASN1MarshalSCTs(assigned)
+	propOK, note := aerr == nil, "ASN1MarshalSCTs failed on well-formed SCTs"
+	if propOK && !bytes.Equal(extVal, handSCTListExt(scts)) {
+		propOK, note = false, "ASN1MarshalSCTs output differs from the hand-encoded RFC 6962 SCT list extension value"
+	}
+	e.w.Add(lib.Case{
+		Coq:    fmt.Sprintf("CSctList %s (%s)", lib.List(sctVals), obsBytes(extVal, aerr, false)),
+		Input:  map[string]interface{}{"op": "asn1-marshal-scts", "count": len(scts)},
+		Impl:   map[string]interface{}{"ok": aerr == nil, "len": len(extVal)},
+		PropOK: propOK, Note: note, Tags: []string{fmt.Sprintf("sct-list:%d", len(scts))},
+	})
+	return extVal, aerr == nil
+}
+
+// removeSct runs RemoveSCTList on the final certificate and emits the CRemoveSct case.  built is the
+// output of the precertificate route; ref, when given, the TBSCertificate of the same certificate
+// issued without the SCT list.
+func (e *env) removeSct(finalTBS, built []byte, fmut string, ref []byte, input map[string]interface{}, tags []string) (rem []byte, coq string) {
+	var rerr error
+	rpan := try(func() { rem, rerr = x509.RemoveSCTList(finalTBS) })
+	propOK, note := !rpan, ""
+	// direct oracle: the two routes give byte-identical TBS exactly for the corresponding certificate
+	if !rpan && rerr == nil && fmut == "none" && !bytes.Equal(rem, built) {
+		propOK, note = false, "routes differ: RemoveSCTList(final) != BuildPrecertTBS(precert)"
+	}
+	if !rpan && rerr == nil && fmut == "none" && ref != nil && !bytes.Equal(rem, ref) {
+		propOK, note = false, "RemoveSCTList output differs from the TBSCertificate of the same certificate issued without the SCT list"
+	}
+	if !rpan && rerr == nil && (fmut == "other-ext-changed" || fmut == "others-reordered") && bytes.Equal(rem, built) {
+		propOK, note = false, "routes agree although the certificates differ"
+	}
+	if (rerr == nil) != (fmut != "sct-twice") {
+		propOK, note = false, "RemoveSCTList ok="+fmt.Sprint(rerr == nil)+" for "+fmut
+	}
+	coq = fmt.Sprintf("CRemoveSct %s (%s)", lib.Bytes(finalTBS), obsBytes(rem, rerr, rpan))
+	input["op"], input["mutation"] = "remove-sct-list", fmut
+	e.w.Add(lib.Case{Coq: coq, Input: input,
+		Impl:   map[string]interface{}{"ok": rerr == nil && !rpan, "same_as_precert_route": bytes.Equal(rem, built)},
+		PropOK: propOK, Note: note, Tags: append([]string{"remove-sct:" + fmut}, tags...)})
+	return rem, coq
+}
+
+// parseBack reads the SCT list back from the parsed final certificate.
+func (e *env) parseBack(final *x509.Certificate, scts []*ct.SignedCertificateTimestamp, extVal []byte) {
+	back, perr := x509util.ParseSCTsFromSCTList(&final.SCTList)
+	var backVals []string
+	same := perr == nil && len(back) == len(scts)
+	for k, x := range back {
+		backVals = append(backVals, tlsgen.ValCoq(sctDesc, reflect.ValueOf(*x)))
+		if same && !reflect.DeepEqual(normSCT(*x), normSCT(*scts[k])) {
+			same = false
+		}
+	}
+	o := "ErrStruct"
+	if perr == nil {
+		o = "Ok " + lib.List(backVals)
+	}
+	e.w.Add(lib.Case{
+		Coq:    fmt.Sprintf("CSctParse %s (%s)", lib.Bytes(extVal), o),
+		Input:  map[string]interface{}{"op": "parse-sct-list", "count": len(scts)},
+		Impl:   map[string]interface{}{"ok": perr == nil, "count": len(back)},
+		PropOK: same, Note: "SCT list read back differs from the list embedded", Tags: []string{"sct-parse"},
+	})
+}
+
+// endToEnd: the embedded SCT verifies exactly when the log signed that precertificate.
+func (e *env) endToEnd(i int, coq string, chain, fchain []*x509.Certificate, leaf *ct.MerkleTreeLeaf, sct *ct.SignedCertificateTimestamp, ts uint64, fmut string, usePre bool) {
+	verr := ctutil.VerifySCT(e.logPub, fchain, sct, true)
+	eleaf, eerr := ct.MerkleTreeLeafForEmbeddedSCT(fchain, ts)
+	lb1, _ := tls.Marshal(*leaf)
+	var lb2 []byte
+	if eerr == nil {
+		lb2, _ = tls.Marshal(*eleaf)
+	}
+	e2eOK := true
+	switch fmut {
+	case "none":
+		e2eOK = verr == nil && eerr == nil && bytes.Equal(lb1, lb2)
+	case "other-ext-changed", "others-reordered":
+		e2eOK = verr != nil && !bytes.Equal(lb1, lb2)
+	}
+	perr2 := ctutil.VerifySCT(e.logPub, chain, sct, false)
+	if perr2 != nil {
+		e2eOK = false
+	}
+	_ = coq // a direct-oracle case: the same term is evaluated against the model in the CRemoveSct case
+	e.w.Add(lib.Case{
+		Key:    fmt.Sprintf("e2e-%d", i),
+		Input:  map[string]interface{}{"op": "verify-embedded-sct", "mutation": fmut, "preissuer": usePre, "chain_len": len(chain)},
+		Impl:   map[string]interface{}{"embedded_verifies": verr == nil, "precert_sct_verifies": perr2 == nil, "leaves_equal": bytes.Equal(lb1, lb2)},
+		PropOK: e2eOK, Note: fmt.Sprintf("embedded SCT verification (%v) inconsistent with the log's signature for mutation %s", verr == nil, fmut),
+		Tags: []string{"e2e:" + fmut + fmt.Sprintf(":verifies=%v", verr == nil), fmt.Sprintf("e2e-chain:pre=%v:len=%d", usePre, len(chain))},
+	})
+}
+
+// refTBS is the reference for both removals: the TBSCertificate of the same certificate issued without
+// the targeted extension.  One convention is applied to it: when the targeted extension was the only one,
+// the implementation (and the Coq model: t_exts = Some []) keeps the then empty extensions field
+// [3] { SEQUENCE {} } - the removal removes the one extension and nothing else - whereas a certificate
+// issued without any extension (standard library's issuer) has no extensions field at all; the fork's
+// own issuer writes the empty field itself.
+func refTBS(plain *pki.Entity) []byte {
+	tbs := plain.Cert.RawTBSCertificate
+	if _, ok := elemLen(tbs, "wrap", nil); ok {
+		return tbs
+	}
+	_, body, _, ok := readTLV(tbs)
+	if !ok {
+		panic("harness: reference certificate is not a TLV")
+	}
+	return tlv(0x30, append(append([]byte{}, body...), 0xa3, 0x02, 0x30, 0x00))
+}
+
+func hasExt(c *x509.Certificate, oid asn1.ObjectIdentifier) bool {
+	for _, x := range c.Extensions {
+		if x.Id.Equal(oid) {
 			return true
 		}
 	}
 	return false
+}
+
+func certs(es ...*pki.Entity) []*x509.Certificate {
+	var out []*x509.Certificate
+	for _, x := range es {
+		if x != nil {
+			out = append(out, x.Cert)
+		}
+	}
+	return out
+}
+
+// one runs one random certificate pair through both routes.  forcedEKU (a list of usage names, see
+// ekuOIDs) fixes the extended key usages of the certificate in the pre-issuer position and switches
+// the perturbations of the precertificate off, so that the pair always reaches the entry construction.
+func (e *env) one(i int, forcedEKU []string) {
+	r := e.r
+	forced := forcedEKU != nil
+	std := i%2 == 1        // every other pair comes from the standard library's issuer
+	bare := r.Intn(3) == 0 // certificates whose only extensions are the extra ones
+	caWithSKI := r.Intn(4) != 0 && !bare
+	var caSKI []byte
+	if caWithSKI {
+		caSKI = make([]byte, 20)
+		r.Read(caSKI)
+	}
+	caAKIself := r.Intn(2) == 0
+	// sometimes the issuing CA is itself issued by a root, so that submitted chains continue past it
+	var root *pki.Entity
+	if r.Intn(2) == 0 {
+		root = issue(std, certOpts{Opts: pki.Opts{CN: fmt.Sprintf("Root %d", i), IsCA: true, KeyKind: keyKinds[r.Intn(4)], KeyIdx: 7 + r.Intn(2)}}, nil)
+	}
+	caOpts := certOpts{Opts: pki.Opts{CN: fmt.Sprintf("CA %d", i), IsCA: true, KeyKind: keyKinds[r.Intn(2)], KeyIdx: r.Intn(3), SKI: caSKI}}
+	if caAKIself && caSKI != nil && root == nil {
+		caOpts.SelfAKI = caSKI
+	}
+	ca := issue(std, caOpts, root)
+	usePre := r.Intn(2) == 0 || forced
+	// with the standard library's issuer a CA always has a subject key id; its children carry no authority
+	// key id where noAKI says so (bare certificates; children of a pre-issuer with a hand-made authority key id,
+	// which BuildPrecertTBS then appends at the end)
+	noAKI := bare
+	var preIss *pki.Entity
+	hasCT := false
+	ekuTag := "eku:none"
+	if usePre {
+		var piSKI []byte
+		if r.Intn(3) != 0 && !bare {
+			piSKI = make([]byte, 20)
+			r.Read(piSKI)
+		}
+		names := []string{"ct"}
+		if r.Intn(12) == 0 {
+			names = []string{"serverAuth"} // not a real pre-issuer
+		}
+		// the pre-issuer's own authority key id, in the three forms RFC 5280 allows; custom forms are
+		// only possible when the CA has no subject key id (CreateCertificate would add its own)
+		var piExtra []pkix.Extension
+		if (std || (caSKI == nil && piSKI == nil)) && r.Intn(2) == 0 {
+			piExtra = []pkix.Extension{{Id: x509.OIDExtensionAuthorityKeyId, Value: akiValue(r, ca.Cert)}}
+			noAKI = true
+		}
+		o := certOpts{Opts: pki.Opts{CN: fmt.Sprintf("Pre-issuer %d", i), IsCA: true, KeyKind: "p256", KeyIdx: 3 + r.Intn(3), SKI: piSKI, ExtraExt: piExtra}}
+		if forced {
+			names = forcedEKU
+		}
+		switch {
+		case std:
+			o.EKUNames = names
+			o.NoAKI = piExtra == nil && r.Intn(4) == 0 // a pre-issuer without authority key id
+			for _, n := range names {
+				hasCT = hasCT || n == "ct"
+			}
+		case forced:
+			hasCT = ekuOpts(r, names, &o.Opts)
+		default:
+			hasCT = names[0] == "ct"
+			o.EKUs = []x509.ExtKeyUsage{ekuKnown[names[0]]}
+		}
+		ekuTag = fmt.Sprintf("eku:%v", names)
+		preIss = issue(std, o, ca)
+	}
+	// the certificate content
+	nExtra := r.Intn(4)
+	var others []pkix.Extension
+	for k := 0; k < nExtra; k++ {
+		others = append(others, randExt(r, k))
+	}
+	c := content{i: i, std: std, bare: bare, serial: drawSerial(r)}
+	c.nb, c.na = drawValidity(r)
+	c.leafKind = keyKinds[r.Intn(len(keyKinds))]
+	if r.Intn(2) == 0 && !bare {
+		c.leafSKI = make([]byte, 20)
+		r.Read(c.leafSKI)
+	}
+	pi := r.Intn(len(others) + 1)
+	precertParent := ca
+	if usePre {
+		precertParent = preIss
+	}
+	precertExts := insertAt(others, pi, pki.PoisonExt())
+	mut := "none"
+	switch r.Intn(10) {
+	case 0:
+		if !forced {
+			precertExts = others
+			mut = "no-poison"
+		}
+	case 1:
+		at := r.Intn(len(precertExts) + 1)
+		if r.Intn(2) == 0 {
+			at = 0
+		}
+		if !forced {
+			precertExts = insertAt(precertExts, at, pki.PoisonExt())
+			mut = "poison-twice"
+		}
+	}
+	precert := c.issue(precertExts, precertParent, noAKI)
+	var preCert *x509.Certificate
+	preCoq := "None"
+	if usePre {
+		preCert = preIss.Cert
+		preCoq = preissuerCoq(preCert, hasCT)
+	}
+	tbs := precert.Cert.RawTBSCertificate
+	if r.Intn(15) == 0 && !forced {
+		tbs = append(append([]byte{}, tbs...), 0)
+		mut += "+trailing"
+	}
+	input := func() map[string]interface{} {
+		return map[string]interface{}{"issuer": issuerName(std), "bare": bare, "preissuer": usePre, "preissuer_eku": ekuTag, "mutation": mut, "others": nExtra, "poison_at": pi, "leaf_key": c.leafKind}
+	}
+	var ref []byte
+	if mut == "none" && !usePre {
+		ref = refTBS(c.issue(others, ca, noAKI))
+	}
+	built, bcoq, ok := e.build(tbs, preCert, preCoq, mut == "none" && (!usePre || hasCT), mut, ref, input(), []string{"build:" + mut, fmt.Sprintf("preissuer=%v", usePre), ekuTag})
+	// who issues the final certificate, and the certificates from there upwards
+	issuer, tail := ca, certs(ca, root)
+	if usePre && !hasCT && mut == "none" {
+		// a certificate without the CT usage in the pre-issuer position is an ordinary intermediate: the
+		// precertificate route must treat it as the direct issuer
+		usePre, preCert, preCoq = false, nil, "None"
+		issuer, tail = preIss, certs(preIss, ca, root)
+		ref = refTBS(c.issue(others, preIss, noAKI))
+		built, bcoq, ok = e.build(tbs, nil, "None", true, mut, ref, input(), []string{"build:" + mut, "preissuer=intermediate"})
+	}
+	if !ok && mut == "none" && ref != nil {
+		built, ok = ref, true // the failure is recorded; the embedded-SCT route is still examined against the reference
+	}
+	if !ok || mut != "none" {
+		return
+	}
+	// the log signs the precertificate entry
+	chain := append(certs(precert), tail...)
+	if usePre {
+		chain = append(certs(precert, preIss), tail...)
+	}
+	ts := uint64(1500000000000 + r.Int63n(1e11))
+	wantTBS := built // with a pre-issuer: checked against the model and against the embedded-SCT route
+	if ref != nil {
+		wantTBS = ref
+	}
+	leaf, sct, ok := e.logSCT(i, bcoq, chain, ts, wantTBS, issuer.Key.Public(), 0, input())
+	if !ok {
+		return
+	}
+	// a few more SCTs (other logs) for the embedded list
+	scts := []*ct.SignedCertificateTimestamp{sct}
+	for k := r.Intn(3); k > 0; k-- {
+		scts = append(scts, fakeSCT(r))
+	}
+	r.Shuffle(len(scts), func(a, b int) { scts[a], scts[b] = scts[b], scts[a] })
+	extVal, ok := e.sctList(scts)
+	if !ok {
+		return
+	}
+	// the corresponding final certificate carries, besides the SCT list, exactly the extensions
+	// of the de-poisoned precertificate in the same order.  When the precertificate has no
+	// authority key id but the pre-issuer has one, BuildPrecertTBS appends it at the END, so the
+	// final certificate must carry it last (CreateCertificate would otherwise put it first).
+	// (With the standard library's issuer the CA always has a subject key id: the final certificate gets
+	// its authority key id from the template only when the precertificate had one and the pre-issuer has one.)
+	if usePre {
+		preIssAKI := false
+		for _, x := range preIss.Cert.Extensions {
+			if x.Id.Equal(x509.OIDExtensionAuthorityKeyId) {
+				preIssAKI = true
+				if !hasExt(precert.Cert, x509.OIDExtensionAuthorityKeyId) {
+					others = append(append([]pkix.Extension{}, others...), pkix.Extension{Id: x.Id, Value: x.Value})
+				}
+			}
+		}
+		noAKI = !(preIssAKI && hasExt(precert.Cert, x509.OIDExtensionAuthorityKeyId))
+	}
+	sj := r.Intn(len(others) + 1)
+	finalExts := insertAt(others, sj, pkix.Extension{Id: x509.OIDExtensionCTSCT, Value: extVal})
+	fmut := "none"
+	switch r.Intn(10) {
+	case 0:
+		at := r.Intn(len(finalExts) + 1)
+		if r.Intn(2) == 0 {
+			at = 0
+		}
+		finalExts = insertAt(finalExts, at, pkix.Extension{Id: x509.OIDExtensionCTSCT, Value: extVal})
+		fmut = "sct-twice"
+	case 1:
+		if len(others) > 0 { // a different "other" extension: not the certificate the log signed
+			alt := append([]pkix.Extension{}, others...)
+			alt[0] = randExt(r, 77)
+			finalExts = insertAt(alt, sj, pkix.Extension{Id: x509.OIDExtensionCTSCT, Value: extVal})
+			fmut = "other-ext-changed"
+		}
+	case 2:
+		if len(others) > 1 {
+			alt := append([]pkix.Extension{}, others...)
+			alt[0], alt[1] = alt[1], alt[0]
+			finalExts = insertAt(alt, sj, pkix.Extension{Id: x509.OIDExtensionCTSCT, Value: extVal})
+			fmut = "others-reordered"
+		}
+	}
+	final := c.issue(finalExts, issuer, noAKI)
+	_, rcoq := e.removeSct(final.Cert.RawTBSCertificate, built, fmut, ref, map[string]interface{}{"issuer": issuerName(std), "sct_at": sj, "preissuer": usePre, "preissuer_eku": ekuTag}, nil)
+	if fmut != "sct-twice" {
+		e.parseBack(final.Cert, scts, extVal)
+	}
+	e.endToEnd(i, rcoq, chain, append(certs(final), tail...), leaf, sct, ts, fmut, usePre)
+}
+
+// ---- the class "length boundaries of the re-encoded elements" ----
+
+// A boundary target: after (where = "post") or before the removal (where = "pre" for the
+// precertificate, "final" for the final certificate) the element elem has exactly size content octets.
+type bnd struct {
+	elem  string // "value", "ext", "list", "wrap", "tbs" (see elemLen)
+	size  int
+	where string
+	std   bool // issued by the standard library
+}
+
+func boundaries() []bnd {
+	var sizes []int
+	for _, s := range []int{127, 128, 255, 256, 65535, 65536} {
+		sizes = append(sizes, s)
+		if lib.Tier() == "thorough" {
+			sizes = append(sizes, s-2, s-1, s+1, s+2)
+		}
+	}
+	// the standard library issues these pairs (nothing of /repo takes part in inputs and references);
+	// the thorough tier repeats them with the fork's issuer
+	var out []bnd
+	for _, std := range []bool{true, false} {
+		if !std && lib.Tier() != "thorough" {
+			continue
+		}
+		for _, s := range sizes {
+			for _, el := range []string{"value", "ext"} { // elements that the removal does not change
+				out = append(out, bnd{el, s, "post", std})
+			}
+			for _, el := range []string{"list", "wrap", "tbs"} {
+				for _, wh := range []string{"pre", "post", "final"} {
+					out = append(out, bnd{el, s, wh, std})
+				}
+			}
+		}
+	}
+	return out
+}
+
+var fillerOID = asn1.ObjectIdentifier{1, 3, 6, 1, 4, 1, 55555, 1, 99}
+
+// boundary issues a direct-issuer pair in which a filler extension (an unknown extension with an
+// opaque value) is sized so that the target element has exactly the target content length, and runs it
+// through both routes with the byte-exact reference (the same certificate without poison / SCT list).
+func (e *env) boundary(i int, b bnd) {
+	r := e.r
+	tight := b.size <= 256 && b.elem != "value" && b.elem != "ext" // little room: the smallest certificates
+	bare := tight || r.Intn(2) == 0
+	var root *pki.Entity
+	if r.Intn(2) == 0 {
+		root = issue(b.std, certOpts{Opts: pki.Opts{CN: fmt.Sprintf("Root %d", i), IsCA: true, KeyKind: keyKinds[r.Intn(4)], KeyIdx: 7 + r.Intn(2)}}, nil)
+	}
+	var caSKI []byte
+	if !bare && r.Intn(2) == 0 {
+		caSKI = make([]byte, 20)
+		r.Read(caSKI)
+	}
+	ca := issue(b.std, certOpts{Opts: pki.Opts{CN: fmt.Sprintf("CA %d", i), IsCA: true, KeyKind: keyKinds[r.Intn(2)], KeyIdx: r.Intn(3), SKI: caSKI}}, root)
+	c := content{i: i, std: b.std, bare: bare, serial: drawSerial(r)}
+	c.nb, c.na = drawValidity(r)
+	c.leafKind = keyKinds[r.Intn(len(keyKinds))]
+	if tight {
+		c.leafKind = "ed25519"
+	}
+	if r.Intn(2) == 0 && !bare {
+		c.leafSKI = make([]byte, 20)
+		r.Read(c.leafSKI)
+	}
+	var others []pkix.Extension
+	if !tight {
+		for k := r.Intn(3); k > 0; k-- {
+			others = append(others, randExt(r, k))
+		}
+	}
+	fillerAt := r.Intn(len(others) + 1)
+	critical := r.Intn(4) == 0
+	fillByte := byte(0xa0 + r.Intn(16))
+	withFiller := func(f int) []pkix.Extension {
+		return insertAt(others, fillerAt, pkix.Extension{Id: fillerOID, Critical: critical, Value: bytes.Repeat([]byte{fillByte}, f)})
+	}
+	pi, sj := r.Intn(len(others)+2), r.Intn(len(others)+2)
+	ts := uint64(1500000000000 + r.Int63n(1e11))
+	// the SCT list: the log's SCT (its ECDSA signature will be drawn until it has 71 octets) among others
+	const sigLen = 71
+	scts := []*ct.SignedCertificateTimestamp{nil}
+	if !tight {
+		for k := r.Intn(3); k > 0; k-- {
+			scts = append(scts, fakeSCT(r))
+		}
+	}
+	r.Shuffle(len(scts), func(x, y int) { scts[x], scts[y] = scts[y], scts[x] })
+	placeholder := &ct.SignedCertificateTimestamp{SCTVersion: ct.V1, Timestamp: ts, Signature: ct.DigitallySigned{
+		Algorithm: tls.SignatureAndHashAlgorithm{Hash: tls.SHA256, Signature: tls.ECDSA}, Signature: make([]byte, sigLen)}}
+	listWith := func(real *ct.SignedCertificateTimestamp) []*ct.SignedCertificateTimestamp {
+		out := append([]*ct.SignedCertificateTimestamp{}, scts...)
+		for k := range out {
+			if out[k] == nil {
+				out[k] = real
+			}
+		}
+		return out
+	}
+	sctExt := func(v []byte) pkix.Extension { return pkix.Extension{Id: x509.OIDExtensionCTSCT, Value: v} }
+	oid := derOID([]int(fillerOID))
+	issueAt := func(f int, where string, extVal []byte) *pki.Entity {
+		switch where {
+		case "pre":
+			return c.issue(insertAt(withFiller(f), pi, pki.PoisonExt()), ca, bare)
+		case "final":
+			return c.issue(insertAt(withFiller(f), sj, sctExt(extVal)), ca, bare)
+		}
+		return c.issue(withFiller(f), ca, bare)
+	}
+	// size the filler: every enclosing length grows with it octet by octet except where a length field
+	// itself grows, so a few corrections reach the target (or show that no filler size does)
+	f, reached := 1, false
+	for it := 0; it < 8 && f >= 0; it++ {
+		m, ok := elemLen(issueAt(f, b.where, handSCTListExt(listWith(placeholder))).Cert.RawTBSCertificate, b.elem, oid)
+		if !ok {
+			panic("harness: cannot locate the element " + b.elem)
+		}
+		if m == b.size {
+			reached = true
+			break
+		}
+		f += b.size - m
+	}
+	if !reached {
+		e.missed++
+		return
+	}
+	btag := fmt.Sprintf("boundary:%s:%s:%d:%s", b.elem, b.where, b.size, issuerName(b.std))
+	input := func() map[string]interface{} {
+		return map[string]interface{}{"issuer": issuerName(b.std), "bare": bare, "preissuer": false, "mutation": "none", "others": len(others) + 1, "poison_at": pi, "leaf_key": c.leafKind,
+			"boundary": map[string]interface{}{"element": b.elem, "content_length": b.size, "measured_on": b.where, "filler_value_length": f, "filler_at": fillerAt, "filler_critical": critical}}
+	}
+	precert := issueAt(f, "pre", nil)
+	plain := issueAt(f, "post", nil)
+	ref := refTBS(plain)
+	built, bcoq, ok := e.build(precert.Cert.RawTBSCertificate, nil, "None", true, "none", ref, input(), []string{"build:none", "preissuer=false", btag})
+	if !ok {
+		built = ref // the failure is recorded; the embedded-SCT route is still examined against the reference
+	}
+	tail := certs(ca, root)
+	chain := append(certs(precert), tail...)
+	leaf, sct, ok := e.logSCT(i, bcoq, chain, ts, ref, ca.Key.Public(), sigLen, input())
+	if !ok {
+		return
+	}
+	all := listWith(sct)
+	extVal, ok := e.sctList(all)
+	if !ok {
+		return
+	}
+	final := issueAt(f, "final", extVal)
+	in := input()
+	in["sct_at"] = sj
+	_, rcoq := e.removeSct(final.Cert.RawTBSCertificate, built, "none", ref, in, []string{btag})
+	e.parseBack(final.Cert, all, extVal)
+	e.endToEnd(i, rcoq, chain, append(certs(final), tail...), leaf, sct, ts, "none", false)
 }
 
 func mustSPKI(pub interface{}) []byte {
